@@ -468,6 +468,13 @@ Proof.
   intro H. inversion H; subst. simpl in *. congruence.
 Qed.
 
+(* ... whether or not notifications are enabled on the shard: the sequence updates of a committed batch do not depend on
+   db.notificationsEnabled (the flag only gates the notification batch and the notifications tracker) *)
+Corollary events_committed_notifications_disabled cb cfg st req o ts st' resp evs :
+  st_notif st = false ->
+  process_write_full cb cfg st req o ts = (st', Ok resp, evs) -> evs = seq_events (w_puts req) (wr_puts resp).
+Proof. intros _. apply events_committed. Qed.
+
 (* a failed batch tells the waiters nothing *)
 Theorem events_none_on_failure cb cfg st req o ts st' e evs :
   process_write_full cb cfg st req o ts = (st', Err e, evs) -> evs = [].
